@@ -68,7 +68,7 @@ pub fn units(tier: Tier, _seed: u64) -> Vec<Unit> {
         if n <= 3 { rows.push((VK::EFT(n, Box::new(VK::Echo)), n + 3, Tr::Affine, Rel::Same)); }
         // invariant under a*x
         for vk in [VK::Rsi(n), VK::MyRSI(n), VK::Roc(n), VK::CoG(n), VK::BinaryEntropy(n), VK::Vst(n)] { rows.push((vk, k, Tr::Scale, Rel::Same)); }
-        if n <= 3 { rows.push((VK::LaguerreRSI(n), 6, Tr::Scale, Rel::Same)); }
+        if n <= 3 { rows.push((VK::LaguerreRSI(n), if q { 3 } else { 4 }, Tr::Scale, Rel::Same)); }
         rows.push((VK::TrendFlex(m3), 5, Tr::Scale, Rel::Same));
         rows.push((VK::ReFlex(m3), 5, Tr::Scale, Rel::Same));
         if n == 2 { rows.push((VK::LnReturn, 5, Tr::Scale, Rel::Same)); rows.push((VK::Drawdown, 5, Tr::Scale, Rel::Same)); }
